@@ -277,28 +277,54 @@ theorem HasEntry.ext {s s' : St} (h : Ext s s') {ctx : Nat} {x : Name} (he : Has
     | some c => rw [hc x c hd]; simp
   · exact Or.inr (ha x hx)
 
+/-- objects, classes and entries persist -/
+def ExtObjs (s s' : St) : Prop :=
+  ∀ (i : Nat) (o : Obj), s.reg.objs[i]? = some o → ∃ o' : Obj, s'.reg.objs[i]? = some o' ∧ o'.cls = o.cls ∧
+    (∀ k c, dget o.contents k = some c → dget o'.contents k = some c) ∧
+    (∀ k, dget o.aliases k ≠ none → dget o'.aliases k ≠ none)
+
+theorem HasEntry.extObjs {s s' : St} (h : ExtObjs s s') {ctx : Nat} {x : Name} (he : HasEntry s ctx x) : HasEntry s' ctx x := by
+  obtain ⟨o, ho, hx⟩ := he
+  obtain ⟨o', ho', _, hc, ha⟩ := h ctx o ho
+  refine ⟨o', ho', ?_⟩
+  rcases hx with hx | hx
+  · left
+    cases hd : dget o.contents x with
+    | none => exact absurd hd hx
+    | some c => rw [hc x c hd]; simp
+  · exact Or.inr (ha x hx)
+
 mutual
-theorem CompleteStmt.ext {s s' : St} (h : Ext s s') : ∀ {ctx : Nat} (st : Stmt), CompleteStmt s ctx st → CompleteStmt s' ctx st
+theorem CompleteStmt.extObjs {s s' : St} (h : ExtObjs s s') : ∀ {ctx : Nat} (st : Stmt), CompleteStmt s ctx st → CompleteStmt s' ctx st
   | ctx, .classDef n bs body, hc => by
     simp only [CompleteStmt] at hc ⊢
     obtain ⟨c, o, po, hpo, hd, ho, hcl, hb⟩ := hc
-    obtain ⟨po', hpo', _, hcc, _⟩ := h.objs ctx po hpo
-    obtain ⟨o', ho', hcl', _, _⟩ := h.objs c o ho
-    exact ⟨c, o', po', hpo', hcc n c hd, ho', hcl'.trans hcl, CompleteStmts.ext h body hb⟩
+    obtain ⟨po', hpo', _, hcc, _⟩ := h ctx po hpo
+    obtain ⟨o', ho', hcl', _, _⟩ := h c o ho
+    exact ⟨c, o', po', hpo', hcc n c hd, ho', hcl'.trans hcl, CompleteStmts.extObjs h body hb⟩
   | ctx, .importMod t a, hc => by
     simp only [CompleteStmt] at hc ⊢
-    exact fun x hx => (hc x hx).ext h
-  | ctx, .importFrom _ _ n a, hc => by simp only [CompleteStmt] at hc ⊢; exact hc.ext h
+    exact fun x hx => (hc x hx).extObjs h
+  | ctx, .importFrom _ _ n a, hc => by simp only [CompleteStmt] at hc ⊢; exact hc.extObjs h
   | ctx, .importStar _ _, _ => by simp [CompleteStmt]
-  | ctx, .funcDef n, hc => by simp only [CompleteStmt] at hc ⊢; exact hc.ext h
-  | ctx, .assign n _, hc => by simp only [CompleteStmt] at hc ⊢; exact hc.ext h
+  | ctx, .funcDef n, hc => by simp only [CompleteStmt] at hc ⊢; exact hc.extObjs h
+  | ctx, .assign n _, hc => by simp only [CompleteStmt] at hc ⊢; exact hc.extObjs h
   | ctx, .allAssign _, _ => by simp [CompleteStmt]
-theorem CompleteStmts.ext {s s' : St} (h : Ext s s') : ∀ {ctx : Nat} (sts : List Stmt), CompleteStmts s ctx sts → CompleteStmts s' ctx sts
+theorem CompleteStmts.extObjs {s s' : St} (h : ExtObjs s s') : ∀ {ctx : Nat} (sts : List Stmt), CompleteStmts s ctx sts → CompleteStmts s' ctx sts
   | _, [], _ => by simp [CompleteStmts]
   | ctx, st :: rest, hc => by
     simp only [CompleteStmts] at hc ⊢
-    exact ⟨CompleteStmt.ext h st hc.1, CompleteStmts.ext h rest hc.2⟩
+    exact ⟨CompleteStmt.extObjs h st hc.1, CompleteStmts.extObjs h rest hc.2⟩
 end
+
+theorem CompleteStmt.ext {s s' : St} (h : Ext s s') {ctx : Nat} (st : Stmt) (hc : CompleteStmt s ctx st) :
+    CompleteStmt s' ctx st := CompleteStmt.extObjs h.objs st hc
+
+theorem CompleteStmts.ext {s s' : St} (h : Ext s s') {ctx : Nat} (sts : List Stmt) (hc : CompleteStmts s ctx sts) :
+    CompleteStmts s' ctx sts := CompleteStmts.extObjs h.objs sts hc
+
+theorem ExtObjs.of_reg {s s' : St} (h : s'.reg = s.reg) : ExtObjs s s' :=
+  fun i o ho => ⟨o, by rw [h]; exact ho, rfl, fun _ _ h => h, fun _ h => h⟩
 
 /-- **the invariant of reachable, well-behaved states** -/
 structure PdInv (proj : Project) (s : St) : Prop where
@@ -314,5 +340,1497 @@ structure PdInv (proj : Project) (s : St) : Prop where
   started : ∀ i S, path s.reg i = some (sitePath proj S) → StaticSite proj S → S.2 ≠ [] → getPs s S.1 ≠ .unprocessed
   cinfo : ∀ c, initialBases s c = []
   complete : ∀ m md, proj[m]? = some md → getPs s m = .processed → CompleteStmts s m md.body
+
+/-! ## `setAlias` -/
+
+theorem setAlias_get_ne {s : St} {ctx : Nat} {k : Name} {v : Path} {i : Nat} (h : i ≠ ctx) :
+    (setAlias s ctx k v).reg.objs[i]? = s.reg.objs[i]? := by
+  simp only [setAlias, modifyObj]; exact getElem?_modify_ne _ h
+
+theorem setAlias_get_eq {s : St} {ctx : Nat} {k : Name} {v : Path} :
+    (setAlias s ctx k v).reg.objs[ctx]? = (s.reg.objs[ctx]?).map (fun o => { o with aliases := dset o.aliases k v }) := by
+  simp only [setAlias, modifyObj]; exact getElem?_modify_eq _ _ _
+
+theorem setAlias_path {s : St} {ctx : Nat} {k : Name} {v : Path} (i : Nat) :
+    path (setAlias s ctx k v).reg i = path s.reg i := by
+  simp only [setAlias, modifyObj, path, List.length_modify]
+  exact pathAux_congr (agree_okey (modify_aliases_agree _ _ _)) _ _
+
+theorem setAlias_ext (s : St) (ctx : Nat) (k : Name) (v : Path) : Ext s (setAlias s ctx k v) := by
+  refine ⟨fun i o ho => ?_, fun i p hp => by rw [setAlias_path]; exact hp, PsRel.refl _⟩
+  by_cases h : i = ctx
+  · subst h
+    refine ⟨{ o with aliases := dset o.aliases k v }, by rw [setAlias_get_eq, ho]; rfl, rfl, fun _ _ h => h, ?_⟩
+    intro k' hk'
+    by_cases hk : k' = k
+    · subst hk; rw [dset_get_same]; simp
+    · rw [dset_get_other _ _ _ _ hk]; exact hk'
+  · exact ⟨o, by rw [setAlias_get_ne h]; exact ho, rfl, fun _ _ h => h, fun _ h => h⟩
+
+theorem setAlias_entry {s : St} {ctx : Nat} {k : Name} {v : Path} {o : Obj} (ho : s.reg.objs[ctx]? = some o) :
+    HasEntry (setAlias s ctx k v) ctx k :=
+  ⟨_, by rw [setAlias_get_eq, ho]; rfl, Or.inr (by simp [dset_get_same])⟩
+
+theorem pdInv_setAlias {proj : Project} {rank : List Nat} (wf : WFacts proj rank) {s : St} (hI : PdInv proj s)
+    {ctx : Nat} {k : Name} {v : Path} {S : Site}
+    (hp : path s.reg ctx = some (sitePath proj S)) (hS : StaticSite proj S) (hj : Jpd proj S k v) :
+    PdInv proj (setAlias s ctx k v) := by
+  have hext := setAlias_ext s ctx k v
+  refine
+    { reg := ?_, lens := hI.lens, mods := ?_, site := ?_, alias := ?_, cont := ?_, alls := hI.alls, started := ?_,
+      cinfo := ?_, complete := ?_ }
+  · exact inv_congr hI.reg (modify_aliases_agree _ _ _)
+  · intro m hm
+    obtain ⟨o, ho, hpm, hc⟩ := hI.mods m hm
+    obtain ⟨o', ho', hc', _, _⟩ := hext.objs m o ho
+    exact ⟨o', ho', by rw [setAlias_path]; exact hpm, hc'.trans hc⟩
+  · intro i o' ho'
+    by_cases h : i = ctx
+    · subst h
+      rw [setAlias_get_eq] at ho'
+      cases ho : s.reg.objs[i]? with
+      | none => rw [ho] at ho'; simp at ho'
+      | some o =>
+        rw [ho] at ho'; simp only [Option.map_some, Option.some.injEq] at ho'; subst ho'
+        obtain ⟨S', hk', hp'⟩ := hI.site i o ho
+        exact ⟨S', hk', by rw [setAlias_path]; exact hp'⟩
+    · rw [setAlias_get_ne h] at ho'
+      obtain ⟨S', hk', hp'⟩ := hI.site i o' ho'
+      exact ⟨S', hk', by rw [setAlias_path]; exact hp'⟩
+  · intro i o' S' ho' hp' hS' x tgt hx
+    rw [setAlias_path] at hp'
+    by_cases h : i = ctx
+    · subst h
+      rw [setAlias_get_eq] at ho'
+      cases ho : s.reg.objs[i]? with
+      | none => rw [ho] at ho'; simp at ho'
+      | some o =>
+        rw [ho] at ho'; simp only [Option.map_some, Option.some.injEq] at ho'; subst ho'
+        simp only at hx
+        by_cases hk : x = k
+        · subst hk
+          rw [dset_get_same] at hx; injection hx with hx; subst hx
+          have : S' = S := site_unique wf hS' hS (by rw [hp] at hp'; injection hp' with hp'; exact hp'.symm)
+          subst this; exact hj
+        · rw [dset_get_other _ _ _ _ hk] at hx
+          exact hI.alias i o S' ho hp' hS' x tgt hx
+    · rw [setAlias_get_ne h] at ho'
+      exact hI.alias i o' S' ho' hp' hS' x tgt hx
+  · intro m o' hm ho' x c hx
+    by_cases h : m = ctx
+    · subst h
+      rw [setAlias_get_eq] at ho'
+      cases ho : s.reg.objs[m]? with
+      | none => rw [ho] at ho'; simp at ho'
+      | some o =>
+        rw [ho] at ho'; simp only [Option.map_some, Option.some.injEq] at ho'; subst ho'
+        exact hI.cont m o hm ho x c hx
+    · rw [setAlias_get_ne h] at ho'
+      exact hI.cont m o' hm ho' x c hx
+  · intro i S' hp' hS' hne
+    rw [setAlias_path] at hp'
+    exact hI.started i S' hp' hS' hne
+  · exact hI.cinfo
+  · intro m md hm hps
+    exact CompleteStmts.ext hext _ (hI.complete m md hm hps)
+
+/-! ## `addObj` -/
+
+theorem addObj_bad {s : St} {c : Cls} {name : Name} {parent : Nat} (h : (addObj s c name parent).bad = false) :
+    s.bad = false := by
+  unfold addObj at h
+  cases ha : addObject s.reg c name (some parent) with
+  | error e => simp [ha] at h
+  | ok r => simp only [ha, Bool.or_eq_false_iff] at h; exact h.1
+
+/-- what a well-behaved `addObj` does -/
+theorem addObj_spec {s : St} {c : Cls} {name : Name} {parent : Nat} {pp : Path}
+    (hp : path s.reg parent = some pp) (h : (addObj s c name parent).bad = false) :
+    addObj s c name parent =
+      { s with reg := ⟨objsAfterAdd s.reg c name parent, s.reg.all ++ [(pp ++ [name], s.reg.objs.length)], s.reg.roots⟩ } ∧
+    addObject s.reg c name (some parent) =
+      .ok ⟨objsAfterAdd s.reg c name parent, s.reg.all ++ [(pp ++ [name], s.reg.objs.length)], s.reg.roots⟩ := by
+  have hb := addObj_bad h
+  have hf : dget s.reg.all (pp ++ [name]) = none := by
+    unfold addObj at h
+    cases ha : addObject s.reg c name (some parent) with
+    | error e => simp [ha] at h
+    | ok r =>
+      simp only [ha, hp, Bool.or_eq_false_iff, dhas] at h
+      cases hd : dget s.reg.all (pp ++ [name]) with
+      | none => rfl
+      | some v => rw [hd] at h; simp at h
+  have ha := addObject_fresh (c := c) hp hf
+  refine ⟨?_, ha⟩
+  unfold addObj
+  simp only [ha, hp, dhas, hf, hb]
+  rfl
+
+theorem pdInv_addObj {proj : Project} {rank : List Nat} (wf : WFacts proj rank) {s : St} (hI : PdInv proj s)
+    {c : Cls} {name : Name} {ctx : Nat} {S : Site} {full : List Stmt} {st : Stmt}
+    (hb : (addObj s c name ctx).bad = false)
+    (hp : path s.reg ctx = some (sitePath proj S)) (hS : siteBody proj S = some full) (hst : st ∈ full)
+    (hk : stKind st = some (name, c)) (hps : getPs s S.1 ≠ .unprocessed) (hSt : StaticSite proj S) :
+    PdInv proj (addObj s c name ctx) ∧ Ext s (addObj s c name ctx) ∧
+    (addObj s c name ctx).reg.objs.length = s.reg.objs.length + 1 ∧
+    (addObj s c name ctx).reg.objs[s.reg.objs.length]? = some (⟨name, some ctx, c, [], []⟩ : Obj) ∧
+    path (addObj s c name ctx).reg s.reg.objs.length = some (sitePath proj (S.1, S.2 ++ [name])) ∧
+    (∃ po, (addObj s c name ctx).reg.objs[ctx]? = some po ∧ dget po.contents name = some s.reg.objs.length) ∧
+    (addObj s c name ctx).ps = s.ps ∧ (addObj s c name ctx).alls = s.alls ∧ (addObj s c name ctx).cinfo = s.cinfo := by
+  obtain ⟨he, hok⟩ := addObj_spec hp hb
+  have hlt := path_lt hp
+  have hinv : Inv (addObj s c name ctx).reg := by rw [he]; exact addObject_inv hI.reg hok
+  rw [he]
+  have hnewpath : path ⟨objsAfterAdd s.reg c name ctx, s.reg.all ++ [(sitePath proj S ++ [name], s.reg.objs.length)],
+      s.reg.roots⟩ s.reg.objs.length = some (sitePath proj (S.1, S.2 ++ [name])) := by
+    rw [path_afterAdd_new hp]; simp [sitePath]
+  have hold : ∀ i o, s.reg.objs[i]? = some o → (objsAfterAdd s.reg c name ctx)[i]? =
+      some (if i = ctx then { o with contents := dset o.contents name s.reg.objs.length } else o) :=
+    fun i o ho => objsAfterAdd_get_old hlt ho
+  have hcases : ∀ i o', (objsAfterAdd s.reg c name ctx)[i]? = some o' →
+      (i = s.reg.objs.length ∧ o' = ⟨name, some ctx, c, [], []⟩) ∨
+      (∃ o, s.reg.objs[i]? = some o ∧ o' = (if i = ctx then { o with contents := dset o.contents name s.reg.objs.length } else o)) := by
+    intro i o' ho'
+    have hil := (List.getElem?_eq_some_iff.1 ho').1
+    rw [objsAfterAdd_length] at hil
+    by_cases hi : i = s.reg.objs.length
+    · subst hi; rw [objsAfterAdd_get_new hlt] at ho'; injection ho' with ho'; exact Or.inl ⟨rfl, ho'.symm⟩
+    · have hi' : i < s.reg.objs.length := by omega
+      have ho : s.reg.objs[i]? = some s.reg.objs[i] := by simp [hi']
+      rw [hold i _ ho] at ho'; injection ho' with ho'
+      exact Or.inr ⟨_, ho, ho'.symm⟩
+  have hpold : ∀ i k, path s.reg i = some k → path ⟨objsAfterAdd s.reg c name ctx,
+      s.reg.all ++ [(sitePath proj S ++ [name], s.reg.objs.length)], s.reg.roots⟩ i = some k :=
+    fun i k hk => path_afterAdd_old hk
+  have hpback : ∀ i k, i < s.reg.objs.length → path ⟨objsAfterAdd s.reg c name ctx,
+      s.reg.all ++ [(sitePath proj S ++ [name], s.reg.objs.length)], s.reg.roots⟩ i = some k → path s.reg i = some k := by
+    intro i k hi hk
+    obtain ⟨k0, hk0⟩ := hI.reg.full i hi
+    have h1 := hI.reg.reg.keys k0 i hk0
+    rw [hpold i k0 h1] at hk; injection hk with hk; subst hk; exact h1
+  have hext : Ext s { s with reg := ⟨objsAfterAdd s.reg c name ctx,
+      s.reg.all ++ [(sitePath proj S ++ [name], s.reg.objs.length)], s.reg.roots⟩ } := by
+    refine ⟨fun i o ho => ⟨_, hold i o ho, ?_, ?_, ?_⟩, hpold, PsRel.refl _⟩
+    · split <;> rfl
+    · intro k' c' hd
+      split
+      · simp only
+        by_cases hk' : k' = name
+        · -- a fresh name cannot be in the parent's contents
+          exfalso
+          rename_i hic; subst hic; subst hk'
+          obtain ⟨co, hco, hcp, hcn⟩ := hI.reg.tree.coh i o k' c' ho (mem_of_dget hd)
+          have hch : HasPath s.reg.objs c' (sitePath proj S ++ [k']) := by
+            rw [← hcn]; exact .child hco hcp (path_sound hp)
+          obtain ⟨k0, hk0⟩ := hI.reg.full c' (List.getElem?_eq_some_iff.1 hco).1
+          have := (hI.reg.reg.hasPath hk0).func hch
+          subst this
+          have hreg := dget_of_mem hI.reg.reg.uniq hk0
+          have hfresh : dget s.reg.all (sitePath proj S ++ [k']) = none := by
+            have hb' := hb
+            unfold addObj at hb'
+            simp only [hok, hp, Bool.or_eq_false_iff, dhas] at hb'
+            cases hd2 : dget s.reg.all (sitePath proj S ++ [k']) with
+            | none => rfl
+            | some v => rw [hd2] at hb'; simp at hb'
+          rw [hfresh] at hreg; cases hreg
+        · rw [dset_get_other _ _ _ _ hk']; exact hd
+      · exact hd
+    · intro k' hk'; split <;> exact hk'
+  refine ⟨?_, hext, by simp [objsAfterAdd_length], objsAfterAdd_get_new hlt, hnewpath, ?_, rfl, rfl, rfl⟩
+  · refine
+      { reg := by rw [he] at hinv; exact hinv, lens := hI.lens, mods := ?_, site := ?_, alias := ?_, cont := ?_,
+        alls := hI.alls, started := ?_, cinfo := hI.cinfo, complete := ?_ }
+    · intro m hm
+      obtain ⟨o, ho, hpm, hc⟩ := hI.mods m hm
+      obtain ⟨o', ho', hc', _, _⟩ := hext.objs m o ho
+      exact ⟨o', ho', hpold m _ hpm, hc'.trans hc⟩
+    · intro i o' ho'
+      rcases hcases i o' ho' with ⟨rfl, rfl⟩ | ⟨o, ho, rfl⟩
+      · exact ⟨(S.1, S.2 ++ [name]), ObjKind.dfn hS hst hk, hnewpath⟩
+      · obtain ⟨S', hk', hp'⟩ := hI.site i o ho
+        refine ⟨S', ?_, hpold i _ hp'⟩
+        split <;> exact hk'
+    · intro i o' S' ho' hp' hS' x tgt hx
+      rcases hcases i o' ho' with ⟨rfl, rfl⟩ | ⟨o, ho, rfl⟩
+      · simp [dget] at hx
+      · have hx' : dget o.aliases x = some tgt := by split at hx <;> exact hx
+        exact hI.alias i o S' ho (hpback i _ (List.getElem?_eq_some_iff.1 ho).1 hp') hS' x tgt hx'
+    · intro m o' hm ho' x c' hx
+      rcases hcases m o' ho' with ⟨rfl, rfl⟩ | ⟨o, ho, rfl⟩
+      · simp [dget] at hx
+      · split at hx
+        · rename_i hmc; subst hmc
+          simp only at hx
+          by_cases hxn : x = name
+          · subst hxn
+            right
+            obtain ⟨om, _, hpm, _⟩ := hI.mods m hm
+            have : S = (m, []) := site_unique wf hSt ⟨hm, Or.inl rfl⟩ (by
+              rw [hpm] at hp; injection hp with hp; simpa [sitePath] using hp.symm)
+            subst this
+            rw [← siteBody_mod hS]
+            exact ⟨st, hst, stKind_defName hk⟩
+          · rw [dset_get_other _ _ _ _ hxn] at hx
+            exact hI.cont m o hm ho x c' hx
+        · exact hI.cont m o hm ho x c' hx
+    · intro i S' hp' hS' hne
+      by_cases hi : i < s.reg.objs.length
+      · exact hI.started i S' (hpback i _ hi hp') hS' hne
+      · have hil : i < (objsAfterAdd s.reg c name ctx).length := path_lt hp'
+        rw [objsAfterAdd_length] at hil
+        have : i = s.reg.objs.length := by omega
+        subst this
+        rw [hnewpath] at hp'; injection hp' with hp'
+        have : S' = (S.1, S.2 ++ [name]) :=
+          site_unique wf hS' (ObjKind.dfn hS hst hk).static hp'.symm
+        subst this; exact hps
+    · intro m md hm hps'
+      exact CompleteStmts.ext hext _ (hI.complete m md hm hps')
+  · obtain ⟨po, hpo⟩ : ∃ po, s.reg.objs[ctx]? = some po := ⟨s.reg.objs[ctx], by simp [hlt]⟩
+    refine ⟨_, hold ctx po hpo, ?_⟩
+    simp [dset_get_same]
+
+/-! ## `bad` is sticky -/
+
+theorem markBad_bad {s : St} {b : Bool} (h : (markBad s b).bad = false) : b = false ∧ markBad s b = s := by
+  unfold markBad at h ⊢
+  cases b <;> simp_all
+
+theorem setAlias_bad (s : St) (ctx : Nat) (k : Name) (v : Path) : (setAlias s ctx k v).bad = s.bad := rfl
+
+def Sticky (pm : St → Nat → St) : Prop := ∀ s t, (pm s t).bad = false → s.bad = false
+
+theorem gpm_bad {pm : St → Nat → St} (hpm : Sticky pm) {s : St} {T : Path}
+    (h : (getProcessedModule pm s T).1.bad = false) : s.bad = false := by
+  unfold getProcessedModule at h
+  cases hl : lookupModule s T with
+  | mk r crash =>
+    rw [hl] at h
+    cases r with
+    | none =>
+      simp only at h
+      obtain ⟨_, he⟩ := markBad_bad h
+      rw [he] at h; exact h
+    | some t =>
+      simp only at h
+      obtain ⟨_, he⟩ := markBad_bad h
+      rw [he] at h
+      split at h
+      · have := hpm _ _ h
+        obtain ⟨_, he2⟩ := markBad_bad this
+        rw [he2] at this; exact this
+      · obtain ⟨_, he2⟩ := markBad_bad h
+        rw [he2] at h; exact h
+
+theorem doMove_bad {s : St} {ctx ob : Nat} {a : Name} (h : (doMove s ctx ob a).1.bad = false) : s.bad = false := by
+  unfold doMove at h
+  cases hr : reparent s.reg ob ctx a with
+  | ok r => simp only [hr, Bool.or_eq_false_iff] at h; exact h.1
+  | error e => simp [hr] at h
+
+theorem hre_bad {s : St} {ctx : Nat} {ex : List Name} {o a : Name} {t : Nat}
+    (h : (handleReExport s ctx ex o a t).1.bad = false) : s.bad = false := by
+  unfold handleReExport at h
+  by_cases h1 : (!ex.contains a) = true
+  · simp only [h1, if_true] at h; exact h
+  · simp only [h1] at h
+    cases hc : reexportCandidate s o t with
+    | none => simp only [hc] at h; exact h
+    | some ob =>
+      simp only [hc] at h
+      by_cases h2 : moveBlocked s ctx ob = true
+      · simp only [h2, if_true] at h; exact h
+      · simp only [h2] at h
+        by_cases h3 : listedIn s t o = true
+        · simp only [h3, if_true] at h; exact h
+        · simp only [h3] at h; exact doMove_bad h
+
+theorem starOne_bad {ctx t : Nat} {ex : List Name} {s : St} {x : Name}
+    (h : (starOne ctx t ex s x).bad = false) : s.bad = false := by
+  unfold starOne at h
+  simp only at h
+  by_cases h1 : (handleReExport s ctx ex x x t).2 = true
+  · simp only [h1, if_true] at h; exact hre_bad h
+  · simp only [h1] at h
+    cases he : Names.expandName (envOf (handleReExport s ctx ex x x t).1) t [x] with
+    | none => simp [he] at h
+    | some p => simp only [he, setAlias_bad] at h; exact hre_bad h
+
+theorem foldl_bad {α : Type} {f : St → α → St} (hf : ∀ s x, (f s x).bad = false → s.bad = false) :
+    ∀ (l : List α) (s : St), (l.foldl f s).bad = false → s.bad = false
+  | [], _, h => h
+  | x :: xs, s, h => hf s x (foldl_bad hf xs (f s x) h)
+
+theorem visitImport_bad {ctx : Nat} {t : Path} {a : Option Name} {s : St} (h : (visitImport ctx t a s).bad = false) :
+    s.bad = false := by
+  unfold visitImport at h
+  cases a with
+  | some a => exact h
+  | none => cases t <;> exact h
+
+theorem visitImportFrom_bad {pm : St → Nat → St} (hpm : Sticky pm) {mod ctx level : Nat} {M : Path} {n : Name}
+    {a : Option Name} {s : St} (h : (visitImportFrom pm mod ctx level M n a s).bad = false) : s.bad = false := by
+  unfold visitImportFrom at h
+  cases hT : absName s mod level M with
+  | none => simp only [hT] at h; exact h
+  | some T =>
+    simp only [hT] at h
+    cases ht : (getProcessedModule pm s T).2 with
+    | none => simp only [ht, setAlias_bad] at h; exact gpm_bad hpm h
+    | some t =>
+      simp only [ht] at h
+      generalize hs2 : (if isPkgObj (getProcessedModule pm s T).1.reg t = true then
+          (getProcessedModule pm (getProcessedModule pm s T).1 (T ++ [n])).1 else (getProcessedModule pm s T).1) = s2 at h
+      have h2 : s2.bad = false := by
+        by_cases hh : (handleReExport s2 ctx (currentExports (getProcessedModule pm s T).1 ctx) n (a.getD n) t).2 = true
+        · simp only [hh, if_true] at h; exact hre_bad h
+        · simp only [hh, Bool.false_eq_true, if_false] at h; rw [setAlias_bad] at h; exact hre_bad h
+      rw [← hs2] at h2
+      split at h2
+      · exact gpm_bad hpm (gpm_bad hpm h2)
+      · exact gpm_bad hpm h2
+
+theorem visitImportStar_bad {pm : St → Nat → St} (hpm : Sticky pm) {mod ctx level : Nat} {M : Path}
+    {s : St} (h : (visitImportStar pm mod ctx level M s).bad = false) : s.bad = false := by
+  unfold visitImportStar at h
+  cases hT : absName s mod level M with
+  | none => simp only [hT] at h; exact h
+  | some T =>
+    simp only [hT] at h
+    cases ht : (getProcessedModule pm s T).2 with
+    | none => simp only [ht] at h; exact gpm_bad hpm h
+    | some t =>
+      simp only [ht] at h
+      exact gpm_bad hpm (foldl_bad (fun s x => starOne_bad) _ _ h)
+
+theorem visitAssign_bad {ctx : Nat} {n : Name} {s : St} (h : (visitAssign ctx n s).bad = false) : s.bad = false := by
+  unfold visitAssign at h
+  cases ho : getObj s.reg ctx with
+  | none => simp [ho] at h
+  | some o =>
+    simp only [ho] at h
+    split at h
+    · split at h
+      · exact h
+      · exact addObj_bad h
+    · split at h
+      · exact h
+      · split at h
+        · exact h
+        · exact addObj_bad h
+
+theorem enterClass_bad {ctx : Nat} {n : Name} {bs : List Path} {s : St} (h : (enterClass ctx n bs s).bad = false) :
+    (addObj s .cls n ctx).bad = false := by
+  unfold enterClass at h
+  simp only at h
+  obtain ⟨_, he⟩ := markBad_bad h
+  rw [he] at h; exact h
+
+mutual
+theorem visitStmt_bad {pm : St → Nat → St} (hpm : Sticky pm) {mod : Nat} :
+    ∀ (st : Stmt) (ctx : Nat) (s : St), (visitStmt pm mod ctx st s).bad = false → s.bad = false
+  | .importMod target asname, ctx, s, h => by simp only [visitStmt] at h; exact visitImport_bad h
+  | .importFrom level modname name asname, ctx, s, h => by
+    simp only [visitStmt] at h; exact visitImportFrom_bad hpm h
+  | .importStar level modname, ctx, s, h => by simp only [visitStmt] at h; exact visitImportStar_bad hpm h
+  | .classDef name bases body, ctx, s, h => by
+    simp only [visitStmt] at h
+    exact addObj_bad (enterClass_bad (visitStmts_bad hpm body _ _ h))
+  | .funcDef name, ctx, s, h => by simp only [visitStmt] at h; exact addObj_bad h
+  | .assign name _, ctx, s, h => by simp only [visitStmt] at h; exact visitAssign_bad h
+  | .allAssign _, ctx, s, h => by simp only [visitStmt] at h; exact h
+theorem visitStmts_bad {pm : St → Nat → St} (hpm : Sticky pm) {mod : Nat} :
+    ∀ (sts : List Stmt) (ctx : Nat) (s : St), (visitStmts pm mod ctx sts s).bad = false → s.bad = false
+  | [], _, _, h => by simpa [visitStmts] using h
+  | st :: rest, ctx, s, h => by
+    simp only [visitStmts] at h
+    exact visitStmt_bad hpm st ctx s (visitStmts_bad hpm rest ctx _ h)
+end
+
+theorem processModule_sticky (proj : Project) : ∀ f, Sticky (processModule proj f)
+  | 0 => fun s t h => by simp [processModule] at h
+  | f+1 => fun s t h => by
+    simp only [processModule] at h
+    split at h
+    · simp at h
+    · split at h
+      · simp at h
+      · rename_i md _
+        have h' : (visitStmts (processModule proj f) t t md.body
+            { s with ps := s.ps.set t .processing, alls := s.alls.set t (lastAll md.body) }).bad = false := h
+        exact visitStmts_bad (processModule_sticky proj f) _ _
+          { s with ps := s.ps.set t .processing, alls := s.alls.set t (lastAll md.body) } h'
+
+/-! ## the visiting context; `getProcessedModule` -/
+
+/-- `ctx` is the object of scope `S` (of module `mod`, which is being processed), whose body is `full` -/
+structure Ctx (proj : Project) (s : St) (mod ctx : Nat) (S : Site) (full : List Stmt) : Prop where
+  hmod : mod < proj.length
+  hS1 : S.1 = mod
+  body : siteBody proj S = some full
+  pathc : path s.reg ctx = some (sitePath proj S)
+  clsc : ∃ o, s.reg.objs[ctx]? = some o ∧ ((S.2 = [] ∧ isModuleCls o.cls = true) ∨ (S.2 ≠ [] ∧ o.cls = .cls))
+  ctxmod : S.2 = [] → ctx = mod
+  ps : getPs s mod = .processing
+
+theorem Ctx.ext {proj : Project} {s s' : St} {mod ctx : Nat} {S : Site} {full : List Stmt}
+    (h : Ctx proj s mod ctx S full) (he : Ext s s') : Ctx proj s' mod ctx S full := by
+  obtain ⟨o, ho, hc⟩ := h.clsc
+  obtain ⟨o', ho', hc', _, _⟩ := he.objs ctx o ho
+  exact ⟨h.hmod, h.hS1, h.body, he.paths _ _ h.pathc, ⟨o', ho', by rw [hc']; exact hc⟩, h.ctxmod, (he.ps mod).1 h.ps⟩
+
+theorem Ctx.static {proj : Project} {s : St} {mod ctx : Nat} {S : Site} {full : List Stmt}
+    (hI : PdInv proj s) (h : Ctx proj s mod ctx S full) : StaticSite proj S := by
+  obtain ⟨o, ho, _⟩ := h.clsc
+  obtain ⟨S', hk, hp⟩ := hI.site ctx o ho
+  rw [h.pathc] at hp; injection hp with hp
+  -- the site of the object has the same body path; use the object's own site
+  have hs' := hk.static
+  obtain ⟨m, cp⟩ := S
+  refine ⟨siteBody_lt h.body, ?_⟩
+  by_cases hcp : cp = []
+  · exact Or.inl hcp
+  · right
+    -- a non-empty chain whose body exists ends in a class statement of the enclosing body
+    have hb := siteBody_bodyAt h.body
+    simp only at hb
+    obtain ⟨cp', n, rfl⟩ : ∃ cp' n, cp = cp' ++ [n] := ⟨cp.dropLast, cp.getLast hcp, (List.dropLast_concat_getLast hcp).symm⟩
+    rw [bodyAt_append] at hb
+    cases hb1 : bodyAt (bodyOf proj m) cp' with
+    | none => simp [hb1] at hb
+    | some b1 =>
+      simp only [hb1, Option.bind_some, bodyAt] at hb
+      cases hf : findClass b1 n with
+      | none => simp [hf] at hb
+      | some b2 =>
+        obtain ⟨bs, hm⟩ := findClass_mem hf
+        refine ⟨cp', n, b1, _, rfl, ?_, hm, rfl⟩
+        unfold siteBody
+        have hlt := siteBody_lt h.body
+        simp only at hlt
+        have : proj[m]? = some proj[m] := by simp [hlt]
+        simp only [this]
+        have hbo : bodyOf proj m = proj[m].body := bodyOf_eq this
+        rw [← hbo]; exact hb1
+
+def PmOk (proj : Project) (pm : St → Nat → St) : Prop :=
+  Sticky pm ∧ ∀ s t, (pm s t).bad = false → PdInv proj s → t < proj.length →
+    PdInv proj (pm s t) ∧ Ext s (pm s t) ∧ getPs (pm s t) t = .processed
+
+/-- an object with a module class is one of the project's modules: its id is the module index -/
+theorem module_obj {proj : Project} {s : St} (hI : PdInv proj s) {t : Nat} (h : isModuleObj s.reg t = true) :
+    t < proj.length := by
+  unfold isModuleObj at h
+  cases ho : getObj s.reg t with
+  | none => simp [ho] at h
+  | some o =>
+    simp only [ho] at h
+    obtain ⟨S, hk, hp⟩ := hI.site t o ho
+    have hS2 := hk.isMod.1 h
+    have hlt := hk.static.1
+    obtain ⟨om, _, hpm, _⟩ := hI.mods S.1 hlt
+    have e : sitePath proj S = pathOf proj S.1 := by simp [sitePath, hS2]
+    rw [e] at hp
+    have h1 := dget_of_path hI.reg hp
+    have h2 := dget_of_path hI.reg hpm
+    rw [h1] at h2; injection h2 with h2
+    rw [h2]; exact hlt
+
+theorem lookupModule_spec {proj : Project} {s : St} (hI : PdInv proj s) {T : Path} {t : Nat} {crash : Bool}
+    (h : lookupModule s T = (some t, crash)) :
+    t < proj.length ∧ ∀ t', modIdx proj T = some t' → t = t' := by
+  unfold lookupModule at h
+  simp only at h
+  constructor
+  · split at h
+    · rename_i i hi
+      split at h
+      · rename_i hm; injection h with h1 _; injection h1 with h1; subst h1; exact module_obj hI hm
+      · cases h
+    · cases h
+  · intro t' ht'
+    obtain ⟨hlt, hp⟩ := modIdx_spec ht'
+    obtain ⟨om, _, hpm, _⟩ := hI.mods t' hlt
+    rw [hp] at hpm
+    have hreg : Names.objFor (envOf s) T = some t' := dget_of_path hI.reg hpm
+    simp only [hreg] at h
+    split at h
+    · injection h with h1 _; injection h1 with h1; exact h1.symm
+    · cases h
+
+theorem gpm_ok {proj : Project} {pm : St → Nat → St} (hpm : PmOk proj pm) {s : St} {T : Path}
+    (hI : PdInv proj s) (hb : (getProcessedModule pm s T).1.bad = false) :
+    PdInv proj (getProcessedModule pm s T).1 ∧ Ext s (getProcessedModule pm s T).1 ∧
+    ∀ t, (getProcessedModule pm s T).2 = some t → t < proj.length ∧ ∀ t', modIdx proj T = some t' → t = t' := by
+  unfold getProcessedModule at hb ⊢
+  cases hl : lookupModule s T with
+  | mk r crash =>
+    rw [hl] at hb
+    cases r with
+    | none =>
+      simp only at hb ⊢
+      obtain ⟨_, he⟩ := markBad_bad hb
+      rw [he]
+      exact ⟨hI, Ext.refl s, fun t ht => by cases ht⟩
+    | some t =>
+      simp only at hb ⊢
+      obtain ⟨_, he⟩ := markBad_bad hb
+      rw [he] at hb ⊢
+      obtain ⟨hlt, hu⟩ := lookupModule_spec hI hl
+      have hrest : ∀ t0, some t = some t0 → t0 < proj.length ∧ ∀ t', modIdx proj T = some t' → t0 = t' :=
+        fun t0 ht0 => by injection ht0 with ht0; subst ht0; exact ⟨hlt, hu⟩
+      have hin : (markBad s crash).bad = false := by
+        split at hb
+        · exact hpm.1 _ _ hb
+        · exact hb
+      obtain ⟨_, hin'⟩ := markBad_bad hin
+      rw [hin'] at hb ⊢
+      by_cases hu' : getPs s t = .unprocessed
+      · simp only [hu', if_true] at hb ⊢
+        exact ⟨(hpm.2 s t hb hI hlt).1, (hpm.2 s t hb hI hlt).2.1, hrest⟩
+      · simp only [hu', if_false] at hb ⊢
+        exact ⟨hI, Ext.refl s, hrest⟩
+
+/-! ## one statement -/
+
+theorem visitImport_ok {proj : Project} {rank : List Nat} (wf : WFacts proj rank) {s : St} (hI : PdInv proj s)
+    {mod ctx : Nat} {S : Site} {full : List Stmt} (hc : Ctx proj s mod ctx S full) {t : Path} {a : Option Name}
+    (hst : Stmt.importMod t a ∈ full) :
+    PdInv proj (visitImport ctx t a s) ∧ Ext s (visitImport ctx t a s) ∧
+    CompleteStmt (visitImport ctx t a s) ctx (.importMod t a) := by
+  have hS := hc.static hI
+  obtain ⟨o, ho, _⟩ := hc.clsc
+  unfold visitImport
+  cases a with
+  | some x =>
+    refine ⟨pdInv_setAlias wf hI hc.pathc hS (Jpd.importAs hc.body hst), setAlias_ext .., ?_⟩
+    simp only [CompleteStmt, explicitNames, List.mem_singleton]
+    intro y hy; subst hy; exact setAlias_entry ho
+  | none =>
+    cases t with
+    | nil => exact ⟨hI, Ext.refl s, by simp [CompleteStmt, explicitNames]⟩
+    | cons h r =>
+      refine ⟨pdInv_setAlias wf hI hc.pathc hS (Jpd.importTop hc.body hst), setAlias_ext .., ?_⟩
+      simp only [CompleteStmt, explicitNames, List.mem_singleton]
+      intro y hy; subst hy; exact setAlias_entry ho
+
+theorem hre_noop {s : St} {ctx : Nat} {ex : List Name} {o a : Name} {t : Nat} (h : ex.contains a = false) :
+    handleReExport s ctx ex o a t = (s, false) := by
+  unfold handleReExport
+  have : (!ex.contains a) = true := by rw [h]; rfl
+  simp only [this, if_true]
+
+theorem isPkgObj_mod {proj : Project} {s : St} (hI : PdInv proj s) {m : Nat} (hm : m < proj.length) :
+    isPkgObj s.reg m = isPkg proj m := by
+  obtain ⟨o, ho, _, hc⟩ := hI.mods m hm
+  unfold isPkgObj getObj
+  simp only [ho, hc, modCls]
+  cases isPkg proj m <;> simp
+
+theorem absName_static {proj : Project} {s : St} (hI : PdInv proj s) {mod : Nat} (hm : mod < proj.length)
+    {lvl : Nat} {M T : Path} (h : absName s mod lvl M = some T) : pdAbsName proj mod lvl M = some T := by
+  obtain ⟨o, ho, hp, hc⟩ := hI.mods mod hm
+  unfold absName at h; unfold pdAbsName
+  by_cases hl : lvl = 0
+  · simp only [hl, if_true] at h ⊢; exact h
+  · simp only [hl, if_false, hp, isPkgObj_mod hI hm] at h ⊢; exact h
+
+/-- the names the current module exports are names of its `__all__` assignments -/
+theorem exports_sub {proj : Project} {s s1 : St} (hI1 : PdInv proj s1) {mod ctx : Nat} {S : Site} {full : List Stmt}
+    (hc : Ctx proj s mod ctx S full) (he : Ext s s1) :
+    ∀ x ∈ currentExports s1 ctx, S.2 = [] ∧ x ∈ allNames (bodyOf proj mod) := by
+  intro x hx
+  unfold currentExports at hx
+  obtain ⟨o, ho, hcl⟩ := (hc.ext he).clsc
+  have hmo : isModuleObj s1.reg ctx = isModuleCls o.cls := by simp [isModuleObj, getObj, ho]
+  rw [hmo] at hx
+  rcases hcl with ⟨hS2, hm⟩ | ⟨hS2, hm⟩
+  · have hcm := hc.ctxmod hS2; subst hcm
+    simp only [hm, if_true] at hx
+    cases hg : getAll s1 ctx with
+    | none => simp [hg] at hx
+    | some l => simp only [hg, Option.getD_some] at hx; exact ⟨hS2, hI1.alls ctx l hg x hx⟩
+  · simp [hm, isModuleCls] at hx
+
+theorem absName_eq {proj : Project} {s : St} (hI : PdInv proj s) {mod : Nat} (hm : mod < proj.length)
+    (lvl : Nat) (M : Path) : absName s mod lvl M = pdAbsName proj mod lvl M := by
+  obtain ⟨o, ho, hp, hc⟩ := hI.mods mod hm
+  unfold absName pdAbsName
+  by_cases hl : lvl = 0
+  · simp [hl]
+  · simp only [hl, if_false, hp, isPkgObj_mod hI hm]; rfl
+
+/-- under `WF` the level arithmetic never fails on a statement of the project -/
+theorem pdAbs_some {proj : Project} {rank : List Nat} (wf : WFacts proj rank) {S : Site} {full : List Stmt}
+    {st : Stmt} {lvl : Nat} {M : Path} (hb : siteBody proj S = some full) (hst : st ∈ full)
+    (ht : target proj S.1 lvl M ∈ stmtTargets proj S.1 st) : ∃ T, pdAbsName proj S.1 lvl M = some T := by
+  obtain ⟨t', ht', _⟩ := wf.targets hb hst _ ht
+  obtain ⟨T', hT', _⟩ := target_spec ht'
+  unfold pyAbsName at hT'; unfold pdAbsName
+  by_cases hl : lvl = 0
+  · simp [hl]
+  · simp only [hl, if_false] at hT' ⊢
+    rw [Names.relative_level _ _ _ (by omega)]
+    cases hr : Names.pythonRelativeBase (pathOf proj S.1) (isPkg proj S.1) lvl with
+    | none => simp [hr] at hT'
+    | some b => exact ⟨_, rfl⟩
+
+theorem visitImportFrom_ok {proj : Project} {rank : List Nat} (wf : WFacts proj rank) {pm : St → Nat → St}
+    (hpm : PmOk proj pm) {s : St} (hI : PdInv proj s) {mod ctx : Nat} {S : Site} {full : List Stmt}
+    (hc : Ctx proj s mod ctx S full) {lvl : Nat} {M : Path} {n : Name} {a : Option Name}
+    (hst : Stmt.importFrom lvl M n a ∈ full) (hb : (visitImportFrom pm mod ctx lvl M n a s).bad = false) :
+    PdInv proj (visitImportFrom pm mod ctx lvl M n a s) ∧ Ext s (visitImportFrom pm mod ctx lvl M n a s) ∧
+    CompleteStmt (visitImportFrom pm mod ctx lvl M n a s) ctx (.importFrom lvl M n a) := by
+  have hS := hc.static hI
+  have hS1 := hc.hS1
+  obtain ⟨T, hT⟩ := pdAbs_some (lvl := lvl) (M := M) wf hc.body hst (by simp [stmtTargets])
+  rw [hS1] at hT
+  have hT' : absName s mod lvl M = some T := by rw [absName_eq hI hc.hmod]; exact hT
+  unfold visitImportFrom at hb ⊢
+  simp only [hT'] at hb ⊢
+  have hjust : Jpd proj S (a.getD n) (T ++ [n]) := Jpd.from hc.body hst (by rw [hS1]; exact hT)
+  cases ht : (getProcessedModule pm s T).2 with
+  | none =>
+    simp only [ht] at hb ⊢
+    rw [setAlias_bad] at hb
+    obtain ⟨hI1, he1, _⟩ := gpm_ok hpm hI hb
+    have hc1 := hc.ext he1
+    obtain ⟨o, ho, _⟩ := hc1.clsc
+    exact ⟨pdInv_setAlias wf hI1 hc1.pathc hS hjust, he1.trans (setAlias_ext ..), by
+      simp only [CompleteStmt]; exact setAlias_entry ho⟩
+  | some t =>
+    simp only [ht] at hb ⊢
+    generalize hs2 : (if isPkgObj (getProcessedModule pm s T).1.reg t = true then
+        (getProcessedModule pm (getProcessedModule pm s T).1 (T ++ [n])).1 else (getProcessedModule pm s T).1) = s2 at hb ⊢
+    have hb2 : s2.bad = false := by
+      by_cases hh : (handleReExport s2 ctx (currentExports (getProcessedModule pm s T).1 ctx) n (a.getD n) t).2 = true
+      · simp only [hh, if_true] at hb; exact hre_bad hb
+      · simp only [hh, Bool.false_eq_true, if_false] at hb; rw [setAlias_bad] at hb; exact hre_bad hb
+    have hb1 : (getProcessedModule pm s T).1.bad = false := by
+      rw [← hs2] at hb2
+      split at hb2
+      · exact gpm_bad hpm.1 hb2
+      · exact hb2
+    obtain ⟨hI1, he1, _⟩ := gpm_ok hpm hI hb1
+    have h2 : PdInv proj s2 ∧ Ext s s2 := by
+      rw [← hs2] at hb2 ⊢
+      by_cases hpk : isPkgObj (getProcessedModule pm s T).1.reg t = true
+      · simp only [hpk, if_true] at hb2 ⊢
+        obtain ⟨hI2, he2, _⟩ := gpm_ok hpm hI1 hb2
+        exact ⟨hI2, he1.trans he2⟩
+      · simp only [hpk, if_false] at hb2 ⊢
+        exact ⟨hI1, he1⟩
+    obtain ⟨hI2, he2⟩ := h2
+    have hnox : (currentExports (getProcessedModule pm s T).1 ctx).contains (a.getD n) = false := by
+      cases hcx : (currentExports (getProcessedModule pm s T).1 ctx).contains (a.getD n) with
+      | false => rfl
+      | true =>
+        exfalso
+        have hmem : a.getD n ∈ currentExports (getProcessedModule pm s T).1 ctx := by simpa using hcx
+        obtain ⟨hS2, hall⟩ := exports_sub hI1 hc he1 _ hmem
+        obtain ⟨m, cp⟩ := S
+        simp only at hS2 hS1; subst hS2; subst hS1
+        exact wf.noreexpFrom hc.body hst hall
+    rw [hre_noop hnox] at hb ⊢
+    simp only [Bool.false_eq_true, if_false] at hb ⊢
+    have hc2 := hc.ext he2
+    obtain ⟨o, ho, _⟩ := hc2.clsc
+    exact ⟨pdInv_setAlias wf hI2 hc2.pathc hS hjust, he2.trans (setAlias_ext ..), by
+      simp only [CompleteStmt]; exact setAlias_entry ho⟩
+
+theorem localName_module {e : Names.Env} {t : Nat} {o : Obj} (ho : getObj e.st t = some o)
+    (hm : isModuleCls o.cls = true) (x : Name) :
+    Names.localName e (Names.fuelOf e) t x =
+      match dget o.contents x with
+      | some c => path e.st c
+      | none => match dget o.aliases x with
+        | some tg => some tg
+        | none => some [x] := by
+  unfold Names.fuelOf
+  rw [Names.localName.eq_def]
+  simp only [ho]
+  cases hc : o.cls <;> simp_all [isModuleCls] <;> rfl
+
+theorem dget_ne_none_of_key {κ ν : Type} [DecidableEq κ] : ∀ {l : List (κ × ν)} {x : κ}, x ∈ l.map (·.1) → dget l x ≠ none
+  | [], _, h => by cases h
+  | (k, v) :: l, x, h => by
+    simp only [dget]
+    split
+    · simp
+    · rename_i hne
+      simp only [List.map_cons, List.mem_cons] at h
+      rcases h with h | h
+      · exact absurd h.symm hne
+      · exact dget_ne_none_of_key h
+
+/-- the qualified name of an entry of `contents` -/
+theorem path_child {s : State} (hI : Inv s) {p c : Nat} {po : Obj} {x : Name} {pp : Path}
+    (hpo : s.objs[p]? = some po) (hd : dget po.contents x = some c) (hp : path s p = some pp) :
+    path s c = some (pp ++ [x]) := by
+  obtain ⟨co, hco, hcp, hcn⟩ := hI.tree.coh p po x c hpo (mem_of_dget hd)
+  obtain ⟨k0, hk0⟩ := hI.full c (List.getElem?_eq_some_iff.1 hco).1
+  have h1 := hI.reg.keys k0 c hk0
+  have hch : HasPath s.objs c (pp ++ [x]) := by rw [← hcn]; exact .child hco hcp (path_sound hp)
+  rw [h1, (path_sound h1).func hch]
+
+theorem starOne_ok {proj : Project} {rank : List Nat} (wf : WFacts proj rank) {s : St} (hI : PdInv proj s)
+    {mod ctx : Nat} {S : Site} {full : List Stmt} (hc : Ctx proj s mod ctx S full) {lvl : Nat} {M T : Path}
+    (hst : Stmt.importStar lvl M ∈ full) (hT : pdAbsName proj S.1 lvl M = some T) {t : Nat} (ht : t < proj.length)
+    (hu : ∀ t', modIdx proj T = some t' → t = t') {x : Name}
+    (hx : starOk proj t x ∧ (x ∈ allNames (bodyOf proj t) ∨ HasEntry s t x))
+    (hb : (starOne ctx t [] s x).bad = false) :
+    PdInv proj (starOne ctx t [] s x) ∧ Ext s (starOne ctx t [] s x) := by
+  have hS := hc.static hI
+  unfold starOne at hb ⊢
+  rw [hre_noop (by simp)] at hb ⊢
+  simp only [Bool.false_eq_true, if_false] at hb ⊢
+  obtain ⟨o, ho, hpt, hcl⟩ := hI.mods t ht
+  have hmo : isModuleCls o.cls = true := by rw [hcl, modCls]; split <;> rfl
+  have hl := localName_module (e := envOf s) (t := t) (o := o) ho hmo x
+  rw [Names.expand_single_local, hl] at hb ⊢
+  cases hdc : dget o.contents x with
+  | some c =>
+    simp only [hdc] at hb ⊢
+    have hpc := path_child hI.reg ho hdc hpt
+    have hpc' : path (envOf s).st c = some (pathOf proj t ++ [x]) := hpc
+    rw [hpc'] at hb ⊢
+    simp only at hb ⊢
+    exact ⟨pdInv_setAlias wf hI hc.pathc hS
+      (Jpd.starChild hc.body hst hT hu hx.1 (hI.cont t o ht ho x c hdc)), setAlias_ext ..⟩
+  | none =>
+    simp only [hdc] at hb ⊢
+    cases hda : dget o.aliases x with
+    | some tg =>
+      simp only [hda] at hb ⊢
+      have hj : Jpd proj (t, []) x tg :=
+        hI.alias t o (t, []) ho (by simpa [sitePath] using hpt) ⟨ht, Or.inl rfl⟩ x tg hda
+      exact ⟨pdInv_setAlias wf hI hc.pathc hS (Jpd.starAlias hc.body hst hT hu hx.1 hj), setAlias_ext ..⟩
+    | none =>
+      simp only [hda] at hb ⊢
+      have hxa : x ∈ allNames (bodyOf proj t) := by
+        rcases hx.2 with h | ⟨o', ho', he⟩
+        · exact h
+        · rw [ho] at ho'; injection ho' with ho'; subst ho'
+          rcases he with he | he
+          · exact absurd hdc he
+          · exact absurd hda he
+      exact ⟨pdInv_setAlias wf hI hc.pathc hS (Jpd.starNone hc.body hst hT hu hxa), setAlias_ext ..⟩
+
+theorem starFold_ok {proj : Project} {rank : List Nat} (wf : WFacts proj rank)
+    {mod ctx : Nat} {S : Site} {full : List Stmt} {lvl : Nat} {M T : Path}
+    (hst : Stmt.importStar lvl M ∈ full) (hT : pdAbsName proj S.1 lvl M = some T) {t : Nat} (ht : t < proj.length)
+    (hu : ∀ t', modIdx proj T = some t' → t = t') :
+    ∀ (l : List Name) (s : St), PdInv proj s → Ctx proj s mod ctx S full →
+      (∀ x ∈ l, starOk proj t x ∧ (x ∈ allNames (bodyOf proj t) ∨ HasEntry s t x)) →
+      (l.foldl (starOne ctx t []) s).bad = false →
+      PdInv proj (l.foldl (starOne ctx t []) s) ∧ Ext s (l.foldl (starOne ctx t []) s)
+  | [], s, hI, _, _, _ => ⟨hI, Ext.refl s⟩
+  | x :: xs, s, hI, hc, hx, hb => by
+    simp only [List.foldl_cons] at hb ⊢
+    have hb1 := foldl_bad (fun s x => starOne_bad) xs _ hb
+    obtain ⟨hI1, he1⟩ := starOne_ok wf hI hc hst hT ht hu (hx x (List.mem_cons_self ..)) hb1
+    have hx' : ∀ y ∈ xs, starOk proj t y ∧ (y ∈ allNames (bodyOf proj t) ∨ HasEntry (starOne ctx t [] s x) t y) := by
+      intro y hy
+      obtain ⟨h1, h2⟩ := hx y (List.mem_cons_of_mem _ hy)
+      exact ⟨h1, h2.imp id (fun h => h.ext he1)⟩
+    obtain ⟨hI2, he2⟩ := starFold_ok wf hst hT ht hu xs _ hI1 (hc.ext he1) hx' hb
+    exact ⟨hI2, he1.trans he2⟩
+
+theorem visitImportStar_ok {proj : Project} {rank : List Nat} (wf : WFacts proj rank) {pm : St → Nat → St}
+    (hpm : PmOk proj pm) {s : St} (hI : PdInv proj s) {mod ctx : Nat} {S : Site} {full : List Stmt}
+    (hc : Ctx proj s mod ctx S full) {lvl : Nat} {M : Path}
+    (hst : Stmt.importStar lvl M ∈ full) (hb : (visitImportStar pm mod ctx lvl M s).bad = false) :
+    PdInv proj (visitImportStar pm mod ctx lvl M s) ∧ Ext s (visitImportStar pm mod ctx lvl M s) := by
+  have hS1 := hc.hS1
+  obtain ⟨T, hT⟩ := pdAbs_some (lvl := lvl) (M := M) wf hc.body hst (by simp [stmtTargets])
+  have hT' : absName s mod lvl M = some T := by rw [absName_eq hI hc.hmod, ← hS1]; exact hT
+  unfold visitImportStar at hb ⊢
+  simp only [hT'] at hb ⊢
+  cases ht : (getProcessedModule pm s T).2 with
+  | none =>
+    simp only [ht] at hb ⊢
+    obtain ⟨hI1, he1, _⟩ := gpm_ok hpm hI hb
+    exact ⟨hI1, he1⟩
+  | some t =>
+    simp only [ht] at hb ⊢
+    have hb1 := foldl_bad (fun s x => starOne_bad) _ _ hb
+    obtain ⟨hI1, he1, hsp⟩ := gpm_ok hpm hI hb1
+    obtain ⟨htl, hu⟩ := hsp t ht
+    -- nothing is exported: a module with star imports has no `__all__`
+    have hex : currentExports (getProcessedModule pm s T).1 ctx = [] := by
+      cases hce : currentExports (getProcessedModule pm s T).1 ctx with
+      | nil => rfl
+      | cons y ys =>
+        exfalso
+        obtain ⟨hS2, hall⟩ := exports_sub hI1 hc he1 y (by rw [hce]; exact List.mem_cons_self ..)
+        obtain ⟨m, cp⟩ := S
+        simp only at hS2 hS1; subst hS2; subst hS1
+        rw [wf.noreexpStar hc.body hst] at hall; cases hall
+    rw [hex] at hb ⊢
+    have hnames : ∀ x ∈ starNames (getProcessedModule pm s T).1 t,
+        starOk proj t x ∧ (x ∈ allNames (bodyOf proj t) ∨ HasEntry (getProcessedModule pm s T).1 t x) := by
+      intro x hx
+      unfold starNames at hx
+      cases hg : getAll (getProcessedModule pm s T).1 t with
+      | some l =>
+        simp only [hg] at hx
+        have := hI1.alls t l hg x hx
+        exact ⟨Or.inl this, Or.inl this⟩
+      | none =>
+        simp only [hg] at hx
+        obtain ⟨o, ho, _, _⟩ := hI1.mods t htl
+        have ho' : getObj (getProcessedModule pm s T).1.reg t = some o := ho
+        simp only [ho', List.mem_filter, List.mem_append] at hx
+        refine ⟨Or.inr (by simpa [isPublic] using hx.2), Or.inr ⟨o, ho, ?_⟩⟩
+        rcases hx.1 with h | h
+        · exact Or.inl (dget_ne_none_of_key h)
+        · exact Or.inr (dget_ne_none_of_key h)
+    obtain ⟨hI2, he2⟩ := starFold_ok wf hst hT htl hu _ _ hI1 (hc.ext he1) hnames hb
+    exact ⟨hI2, he1.trans he2⟩
+
+/-! ## definitions: `def`, `x = <const>`, `class` -/
+
+theorem dget_map_key {α β : Type} (g : Nat → β) : ∀ (l : List (Nat × α)) (c : Nat) (v : β),
+    dget (l.map fun e => (e.1, g e.1)) c = some v → v = g c
+  | [], _, _, h => by simp [dget] at h
+  | (k, _) :: l, c, v, h => by
+    simp only [List.map_cons, dget] at h
+    split at h
+    · rename_i hk; subst hk; injection h with h; exact h.symm
+    · exact dget_map_key g l c v h
+
+/-- without base classes, the linearisation used during the AST pass is the class itself -/
+theorem mroOf_mid {proj : Project} {s : St} (hI : PdInv proj s) (c : Nat) : Names.mroOf (envOf s) c = [c] := by
+  unfold Names.mroOf envOf
+  simp only
+  cases hd : dget (midMro s) c with
+  | none => rfl
+  | some v =>
+    unfold midMro at hd
+    have := dget_map_key (fun c => Mro.allbasesFuel (initialBases s) (fun _ => false) (s.reg.objs.length + 1) c) _ _ _ hd
+    simp only [Option.getD_some, this, Mro.allbasesFuel, hI.cinfo c, List.filter_nil, List.flatMap_nil]
+
+theorem classFind_mid {proj : Project} {s : St} (hI : PdInv proj s) {c : Nat} {o : Obj}
+    (ho : s.reg.objs[c]? = some o) (x : Name) : Names.classFind (envOf s) c x = dget o.contents x := by
+  unfold Names.classFind
+  rw [mroOf_mid hI]
+  have : getObj (envOf s).st c = some o := ho
+  simp only [List.findSome?, this]
+  cases dget o.contents x <;> rfl
+
+theorem visitFunc_ok {proj : Project} {rank : List Nat} (wf : WFacts proj rank) {s : St} (hI : PdInv proj s)
+    {mod ctx : Nat} {S : Site} {full : List Stmt} (hc : Ctx proj s mod ctx S full) {n : Name}
+    (hst : Stmt.funcDef n ∈ full) (hb : (addObj s .function n ctx).bad = false) :
+    PdInv proj (addObj s .function n ctx) ∧ Ext s (addObj s .function n ctx) ∧
+    CompleteStmt (addObj s .function n ctx) ctx (.funcDef n) := by
+  have hps : getPs s S.1 ≠ .unprocessed := by rw [hc.hS1, hc.ps]; simp
+  obtain ⟨h1, h2, _, _, _, ⟨po, hpo, hd⟩, _⟩ :=
+    pdInv_addObj wf hI hb hc.pathc hc.body hst (st := .funcDef n) rfl hps (hc.static hI)
+  exact ⟨h1, h2, by simp only [CompleteStmt]; exact ⟨po, hpo, Or.inl (by rw [hd]; simp)⟩⟩
+
+theorem visitAssign_ok {proj : Project} {rank : List Nat} (wf : WFacts proj rank) {s : St} (hI : PdInv proj s)
+    {mod ctx : Nat} {S : Site} {full : List Stmt} (hc : Ctx proj s mod ctx S full) {n : Name} {v : Nat}
+    (hst : Stmt.assign n v ∈ full) (hb : (visitAssign ctx n s).bad = false) :
+    PdInv proj (visitAssign ctx n s) ∧ Ext s (visitAssign ctx n s) ∧
+    CompleteStmt (visitAssign ctx n s) ctx (.assign n v) := by
+  have hps : getPs s S.1 ≠ .unprocessed := by rw [hc.hS1, hc.ps]; simp
+  obtain ⟨o, ho, _⟩ := hc.clsc
+  have hgo : getObj s.reg ctx = some o := ho
+  have hadd : (addObj s .attribute n ctx).bad = false →
+      PdInv proj (addObj s .attribute n ctx) ∧ Ext s (addObj s .attribute n ctx) ∧
+      CompleteStmt (addObj s .attribute n ctx) ctx (.assign n v) := by
+    intro hb'
+    obtain ⟨h1, h2, _, _, _, ⟨po, hpo, hd⟩, _⟩ :=
+      pdInv_addObj wf hI hb' hc.pathc hc.body hst (st := .assign n v) rfl hps (hc.static hI)
+    exact ⟨h1, h2, by simp only [CompleteStmt]; exact ⟨po, hpo, Or.inl (by rw [hd]; simp)⟩⟩
+  have hhas : dhas o.contents n = true → CompleteStmt s ctx (.assign n v) := by
+    intro h
+    simp only [CompleteStmt]
+    refine ⟨o, ho, Or.inl ?_⟩
+    unfold dhas at h
+    cases hd : dget o.contents n with
+    | none => simp [hd] at h
+    | some c => simp
+  unfold visitAssign at hb ⊢
+  simp only [hgo] at hb ⊢
+  by_cases hm : isModuleCls o.cls = true
+  · simp only [hm, if_true] at hb ⊢
+    by_cases hd : dhas o.contents n = true
+    · simp only [hd, if_true] at hb ⊢; exact ⟨hI, Ext.refl s, hhas hd⟩
+    · simp only [hd] at hb ⊢; exact hadd hb
+  · simp only [hm] at hb ⊢
+    by_cases hma : maybeAttribute s ctx n = true
+    · simp only [hma, Bool.not_true, Bool.false_eq_true, if_false] at hb ⊢
+      by_cases hd : dhas o.contents n = true
+      · simp only [hd, if_true] at hb ⊢; exact ⟨hI, Ext.refl s, hhas hd⟩
+      · simp only [hd] at hb ⊢; exact hadd hb
+    · have hma' : maybeAttribute s ctx n = false := by simpa using hma
+      simp only [hma', Bool.not_false, if_true] at hb ⊢
+      refine ⟨hI, Ext.refl s, hhas ?_⟩
+      unfold maybeAttribute at hma'
+      rw [classFind_mid hI ho] at hma'
+      unfold dhas
+      cases hd : dget o.contents n with
+      | none => simp [hd] at hma'
+      | some c => simp
+
+theorem findClass_some : ∀ {full : List Stmt} {n : Name} {bs : List Path} {body : List Stmt},
+    Stmt.classDef n bs body ∈ full → ∃ b', findClass full n = some b'
+  | [], _, _, _, h => by cases h
+  | st :: rest, n, bs, body, h => by
+    rcases List.mem_cons.1 h with rfl | h'
+    · exact ⟨body, by simp [findClass]⟩
+    · obtain ⟨b', hb'⟩ := findClass_some h'
+      cases st with
+      | classDef n2 bs2 body2 =>
+        simp only [findClass]
+        split
+        · exact ⟨_, rfl⟩
+        · exact ⟨b', hb'⟩
+      | _ => exact ⟨b', by simpa [findClass] using hb'⟩
+
+/-- the class statement of a scope that is named `n` is the one `findClass` sees -/
+theorem findClass_of_mem {proj : Project} {rank : List Nat} (wf : WFacts proj rank) {S : Site} {full : List Stmt}
+    {n : Name} {bs : List Path} {body : List Stmt} (hb : siteBody proj S = some full)
+    (hst : Stmt.classDef n bs body ∈ full) : findClass full n = some body := by
+  obtain ⟨b', hf⟩ := findClass_some hst
+  obtain ⟨bs', hm'⟩ := findClass_mem hf
+  have := same_stmt wf hb hst hm' (x := n) (stmtNames_of_explicit (by simp [explicitNames]))
+    (stmtNames_of_explicit (by simp [explicitNames]))
+  injection this with _ _ h3
+  rw [hf, h3]
+
+theorem initialBases_append {s : St} {c : Nat} {ci : ClsInfo} (hci : ci.objs = []) (hold : ∀ c, initialBases s c = []) :
+    ∀ c', initialBases { s with cinfo := s.cinfo ++ [(c, ci)] } c' = [] := by
+  intro c'
+  have h0 := hold c'
+  unfold initialBases at h0 ⊢
+  simp only
+  -- `dget` on an appended list: the old entry if there is one, else the new
+  have key : ∀ (l : List (Nat × ClsInfo)), dget (l ++ [(c, ci)]) c' =
+      match dget l c' with | some v => some v | none => (if c = c' then some ci else none) := by
+    intro l
+    induction l with
+    | nil => simp [dget]
+    | cons e l ih =>
+      obtain ⟨k, v⟩ := e
+      simp only [List.cons_append, dget]
+      split
+      · rfl
+      · exact ih
+  rw [key]
+  cases hd : dget s.cinfo c' with
+  | some v => simp only [hd] at h0 ⊢; exact h0
+  | none =>
+    by_cases hcc : c = c'
+    · simp [hcc, hci]
+    · simp [hcc]
+
+theorem enterClass_ok {proj : Project} {rank : List Nat} (wf : WFacts proj rank) {s : St} (hI : PdInv proj s)
+    {mod ctx : Nat} {S : Site} {full : List Stmt} (hc : Ctx proj s mod ctx S full) {n : Name} {bs : List Path}
+    {body : List Stmt} (hst : Stmt.classDef n bs body ∈ full) (hb : (enterClass ctx n bs s).bad = false) :
+    PdInv proj (enterClass ctx n bs s) ∧ Ext s (enterClass ctx n bs s) ∧
+    Ctx proj (enterClass ctx n bs s) mod s.reg.objs.length (S.1, S.2 ++ [n]) body ∧
+    (∃ po, (enterClass ctx n bs s).reg.objs[ctx]? = some po ∧ dget po.contents n = some s.reg.objs.length) := by
+  have hps : getPs s S.1 ≠ .unprocessed := by rw [hc.hS1, hc.ps]; simp
+  have hbs : bs = [] := wf.nobases hc.body hst
+  subst hbs
+  have hb1 := enterClass_bad hb
+  obtain ⟨h1, h2, hlen, hnew, hpn, ⟨po, hpo, hd⟩, hps', hal', hci'⟩ :=
+    pdInv_addObj wf hI hb1 hc.pathc hc.body hst (st := .classDef n [] body) rfl hps (hc.static hI)
+  have he : enterClass ctx n [] s =
+      { addObj s .cls n ctx with cinfo := (addObj s .cls n ctx).cinfo ++ [(s.reg.objs.length, ⟨ctx, [], [], []⟩)] } := by
+    unfold enterClass
+    simp [markBad]
+  rw [he]
+  generalize addObj s .cls n ctx = s1 at *
+  have hext1 : Ext s1 { s1 with cinfo := s1.cinfo ++ [(s.reg.objs.length, ⟨ctx, [], [], []⟩)] } :=
+    ⟨fun i o h => ⟨o, h, rfl, fun _ _ h => h, fun _ h => h⟩, fun _ _ h => h, fun t => ⟨id, id, fun h => by
+      show getPs s1 t ≠ _; rw [h]; simp⟩⟩
+  have hI2 : PdInv proj { s1 with cinfo := s1.cinfo ++ [(s.reg.objs.length, ⟨ctx, [], [], []⟩)] } :=
+    { reg := h1.reg, lens := h1.lens, mods := h1.mods, site := h1.site, alias := h1.alias, cont := h1.cont,
+      alls := h1.alls, started := h1.started, cinfo := initialBases_append rfl h1.cinfo,
+      complete := fun m md hm hp => CompleteStmts.ext hext1 _ (h1.complete m md hm hp) }
+  refine ⟨hI2, h2.trans hext1, ?_, ⟨po, hpo, hd⟩⟩
+  have hc1 := hc.ext h2
+  exact
+    { hmod := hc.hmod, hS1 := hc.hS1,
+      body := siteBody_snoc hc.body (findClass_of_mem wf hc.body hst),
+      pathc := hpn,
+      clsc := ⟨_, hnew, Or.inr ⟨by simp, rfl⟩⟩,
+      ctxmod := fun h => by simp at h,
+      ps := hc1.ps }
+
+/-! ## a body -/
+
+mutual
+theorem visitStmt_ok {proj : Project} {rank : List Nat} (wf : WFacts proj rank) {pm : St → Nat → St}
+    (hpm : PmOk proj pm) {mod : Nat} :
+    ∀ (st : Stmt) (ctx : Nat) (s : St) (S : Site) (full : List Stmt), PdInv proj s → Ctx proj s mod ctx S full →
+      st ∈ full → (visitStmt pm mod ctx st s).bad = false →
+      PdInv proj (visitStmt pm mod ctx st s) ∧ Ext s (visitStmt pm mod ctx st s) ∧
+      CompleteStmt (visitStmt pm mod ctx st s) ctx st
+  | .importMod t a, ctx, s, S, full, hI, hc, hst, _ => by
+    simp only [visitStmt]; exact visitImport_ok wf hI hc hst
+  | .importFrom lvl M n a, ctx, s, S, full, hI, hc, hst, hb => by
+    simp only [visitStmt] at hb ⊢; exact visitImportFrom_ok wf hpm hI hc hst hb
+  | .importStar lvl M, ctx, s, S, full, hI, hc, hst, hb => by
+    simp only [visitStmt] at hb ⊢
+    obtain ⟨h1, h2⟩ := visitImportStar_ok wf hpm hI hc hst hb
+    exact ⟨h1, h2, by simp [CompleteStmt]⟩
+  | .classDef n bs body, ctx, s, S, full, hI, hc, hst, hb => by
+    simp only [visitStmt] at hb ⊢
+    have hb1 := visitStmts_bad hpm.1 body _ _ hb
+    obtain ⟨hI1, he1, hc1, ⟨po, hpo, hd⟩⟩ := enterClass_ok wf hI hc hst hb1
+    obtain ⟨hI2, he2, hcomp⟩ := visitStmts_ok wf hpm body _ _ _ body hI1 hc1 (fun _ h => h) hb
+    refine ⟨hI2, he1.trans he2, ?_⟩
+    simp only [CompleteStmt]
+    obtain ⟨po', hpo', _, hcc, _⟩ := he2.objs ctx po hpo
+    obtain ⟨o1, ho1, hcl⟩ := hc1.clsc
+    obtain ⟨o2, ho2, hcl2, _, _⟩ := he2.objs _ o1 ho1
+    refine ⟨s.reg.objs.length, o2, po', hpo', hcc n _ hd, ho2, ?_, hcomp⟩
+    rcases hcl with ⟨h0, _⟩ | ⟨_, h0⟩
+    · simp at h0
+    · rw [hcl2, h0]
+  | .funcDef n, ctx, s, S, full, hI, hc, hst, hb => by
+    simp only [visitStmt] at hb ⊢; exact visitFunc_ok wf hI hc hst hb
+  | .assign n v, ctx, s, S, full, hI, hc, hst, hb => by
+    simp only [visitStmt] at hb ⊢; exact visitAssign_ok wf hI hc hst hb
+  | .allAssign l, ctx, s, S, full, hI, _, _, _ => by
+    simp only [visitStmt]; exact ⟨hI, Ext.refl s, by simp [CompleteStmt]⟩
+theorem visitStmts_ok {proj : Project} {rank : List Nat} (wf : WFacts proj rank) {pm : St → Nat → St}
+    (hpm : PmOk proj pm) {mod : Nat} :
+    ∀ (sts : List Stmt) (ctx : Nat) (s : St) (S : Site) (full : List Stmt), PdInv proj s → Ctx proj s mod ctx S full →
+      (∀ st ∈ sts, st ∈ full) → (visitStmts pm mod ctx sts s).bad = false →
+      PdInv proj (visitStmts pm mod ctx sts s) ∧ Ext s (visitStmts pm mod ctx sts s) ∧
+      CompleteStmts (visitStmts pm mod ctx sts s) ctx sts
+  | [], ctx, s, S, full, hI, _, _, _ => by
+    simp only [visitStmts]; exact ⟨hI, Ext.refl s, by simp [CompleteStmts]⟩
+  | st :: rest, ctx, s, S, full, hI, hc, hsub, hb => by
+    simp only [visitStmts] at hb ⊢
+    have hb1 := visitStmts_bad hpm.1 rest _ _ hb
+    obtain ⟨hI1, he1, hc1⟩ := visitStmt_ok wf hpm st ctx s S full hI hc (hsub st (List.mem_cons_self ..)) hb1
+    obtain ⟨hI2, he2, hc2⟩ := visitStmts_ok wf hpm rest ctx _ S full hI1 (hc.ext he1)
+      (fun x hx => hsub x (List.mem_cons_of_mem _ hx)) hb
+    exact ⟨hI2, he1.trans he2, by simp only [CompleteStmts]; exact ⟨CompleteStmt.ext he2 st hc1, hc2⟩⟩
+end
+
+/-! ## a module; the whole run -/
+
+theorem getPs_set {s : St} {m : Nat} {v : PState} (hm : m < s.ps.length) (t : Nat) :
+    getPs { s with ps := s.ps.set m v } t = if t = m then v else getPs s t := by
+  unfold getPs
+  simp only [List.getD_eq_getElem?_getD, List.getElem?_set]
+  by_cases h : m = t
+  · subst h; simp [hm]
+  · simp [h, Ne.symm h]
+
+theorem getAll_set {s : St} {m : Nat} {v : Option (List Name)} (hm : m < s.alls.length) (t : Nat) :
+    getAll { s with alls := s.alls.set m v } t = if t = m then v else getAll s t := by
+  unfold getAll
+  simp only [List.getD_eq_getElem?_getD, List.getElem?_set]
+  by_cases h : m = t
+  · subst h; simp [hm]
+  · simp [h, Ne.symm h]
+
+theorem lastAll_sub : ∀ (body : List Stmt) (l : List Name), lastAll body = some l → ∀ x ∈ l, x ∈ allNames body
+  | [], _, h, _, _ => by simp [lastAll] at h
+  | st :: rest, l, h, x, hx => by
+    cases st with
+    | allAssign l0 =>
+      simp only [lastAll] at h
+      simp only [allNames, List.mem_append]
+      cases hr : lastAll rest with
+      | none => simp only [hr, Option.some.injEq] at h; subst h; exact Or.inl hx
+      | some l' => simp only [hr, Option.some.injEq] at h; subst h; exact Or.inr (lastAll_sub rest _ hr x hx)
+    | _ => simp only [lastAll, allNames] at h ⊢; exact lastAll_sub rest l h x hx
+
+theorem processModule_ok {proj : Project} {rank : List Nat} (wf : WFacts proj rank) :
+    ∀ f, PmOk proj (processModule proj f)
+  | 0 => ⟨processModule_sticky proj 0, fun s t h => by simp [processModule] at h⟩
+  | f+1 => by
+    refine ⟨processModule_sticky proj (f+1), ?_⟩
+    intro s m hb hI hm
+    have ih := processModule_ok wf f
+    simp only [processModule] at hb ⊢
+    by_cases hu : getPs s m = .unprocessed
+    · have hne : ¬ (getPs s m ≠ .unprocessed) := by simp [hu]
+      simp only [hne, if_false] at hb ⊢
+      have hmd : proj[m]? = some proj[m] := by simp [hm]
+      simp only [hmd] at hb ⊢
+      have hmps : m < s.ps.length := by rw [hI.lens.1]; exact hm
+      have hmal : m < s.alls.length := by rw [hI.lens.2]; exact hm
+      -- the state in which the body is visited
+      generalize hs2 : ({ s with ps := s.ps.set m .processing, alls := s.alls.set m (lastAll proj[m].body) } : St) = s2 at hb ⊢
+      have hreg2 : s2.reg = s.reg := by rw [← hs2]
+      have hps2 : ∀ t, getPs s2 t = if t = m then .processing else getPs s t := by
+        intro t; rw [← hs2]; exact getPs_set (s := { s with alls := _ }) hmps t
+      have hal2 : ∀ t, getAll s2 t = if t = m then lastAll proj[m].body else getAll s t := by
+        intro t; rw [← hs2]; exact getAll_set (s := { s with ps := _ }) hmal t
+      have hbody : bodyOf proj m = proj[m].body := bodyOf_eq hmd
+      have hI2 : PdInv proj s2 :=
+        { reg := hreg2 ▸ hI.reg
+          lens := by rw [← hs2]; simp [hI.lens]
+          mods := by rw [hreg2]; exact hI.mods
+          site := by rw [hreg2]; exact hI.site
+          alias := by rw [hreg2]; exact hI.alias
+          cont := by rw [hreg2]; exact hI.cont
+          alls := by
+            intro t l hl x hx
+            rw [hal2] at hl
+            by_cases htm : t = m
+            · subst htm; simp only [if_true] at hl; rw [hbody]; exact lastAll_sub _ l hl x hx
+            · simp only [htm, if_false] at hl; exact hI.alls t l hl x hx
+          started := by
+            intro i S hp hS hne'
+            rw [hps2]
+            by_cases htm : S.1 = m
+            · simp [htm]
+            · simp only [htm, if_false]; exact hI.started i S (hreg2 ▸ hp) hS hne'
+          cinfo := by
+            intro c; have := hI.cinfo c; unfold initialBases at this ⊢; rw [← hs2]; exact this
+          complete := by
+            intro t md ht hp
+            rw [hps2] at hp
+            by_cases htm : t = m
+            · simp [htm] at hp
+            · simp only [htm, if_false] at hp
+              exact CompleteStmts.extObjs (ExtObjs.of_reg hreg2) _ (hI.complete t md ht hp) }
+      obtain ⟨o, ho, hpm, hcl⟩ := hI.mods m hm
+      have hc2 : Ctx proj s2 m m (m, []) proj[m].body :=
+        { hmod := hm, hS1 := rfl, body := by rw [siteBody_zero hm, hbody]
+          pathc := by rw [hreg2]; simpa [sitePath] using hpm
+          clsc := ⟨o, by rw [hreg2]; exact ho, Or.inl ⟨rfl, by rw [hcl, modCls]; split <;> rfl⟩⟩
+          ctxmod := fun _ => rfl
+          ps := by rw [hps2]; simp }
+      have hb3 : (visitStmts (processModule proj f) m m proj[m].body s2).bad = false := hb
+      obtain ⟨hI3, he3, hcomp⟩ := visitStmts_ok wf ih proj[m].body m s2 (m, []) proj[m].body hI2 hc2 (fun _ h => h) hb3
+      generalize hs3 : visitStmts (processModule proj f) m m proj[m].body s2 = s3 at hb hI3 he3 hcomp ⊢
+      have hm3 : m < s3.ps.length := by rw [hI3.lens.1]; exact hm
+      have hps4 : ∀ t, getPs { s3 with ps := s3.ps.set m .processed } t = if t = m then .processed else getPs s3 t :=
+        fun t => getPs_set hm3 t
+      refine ⟨?_, ?_, by rw [hps4]; simp⟩
+      · exact
+          { reg := hI3.reg
+            lens := by simp [hI3.lens]
+            mods := hI3.mods, site := hI3.site, alias := hI3.alias, cont := hI3.cont, alls := hI3.alls
+            started := by
+              intro i S hp hS hne'
+              rw [hps4]
+              by_cases htm : S.1 = m
+              · simp [htm]
+              · simp only [htm, if_false]; exact hI3.started i S hp hS hne'
+            cinfo := hI3.cinfo
+            complete := by
+              intro t md ht hp
+              rw [hps4] at hp
+              by_cases htm : t = m
+              · subst htm
+                rw [hmd] at ht; injection ht with ht; subst ht
+                exact CompleteStmts.extObjs (s := s3) (s' := { s3 with ps := s3.ps.set t .processed }) (ExtObjs.of_reg rfl) _ hcomp
+              · simp only [htm, if_false] at hp
+                exact CompleteStmts.extObjs (s := s3) (s' := { s3 with ps := s3.ps.set m .processed }) (ExtObjs.of_reg rfl) _
+                  (hI3.complete t md ht hp) }
+      · refine ⟨fun i o' ho' => ?_, fun i k hk => he3.paths i k (hreg2 ▸ hk), ?_⟩
+        · exact he3.objs i o' (hreg2 ▸ ho')
+        · intro t
+          rw [hps4]
+          by_cases htm : t = m
+          · subst htm
+            simp only [if_true, hu]
+            refine ⟨fun h => ?_, fun h => ?_, fun _ => ?_⟩
+            · cases h
+            · cases h
+            · simp
+          · simp only [htm, if_false]
+            have h3 := he3.ps t
+            rw [hps2] at h3
+            simp only [htm, if_false] at h3
+            exact h3
+    · have hne : getPs s m ≠ .unprocessed := hu
+      simp [hne] at hb
+
+/-! ## building the system: `initSt` -/
+
+theorem addObject_fresh_root {s : State} {c : Cls} {name : Name} (hc : isModuleCls c = true)
+    (hf : dget s.all [name] = none) :
+    addObject s c name none =
+      .ok ⟨s.objs ++ [(⟨name, none, c, [], []⟩ : Obj)], s.all ++ [([name], s.objs.length)], s.roots ++ [s.objs.length]⟩ := by
+  unfold addObject place
+  simp only [hc, if_true]
+  unfold register
+  have hp : path ⟨s.objs ++ [(⟨name, none, c, [], []⟩ : Obj)], s.all, s.roots ++ [s.objs.length]⟩ s.objs.length = some [name] := by
+    simp only [path, List.length_append, List.length_singleton]
+    exact pathAux_root (o := ⟨name, none, c, [], []⟩) (by simp) rfl
+  simp only [hp, hf]
+
+theorem path_append_old {s : State} {new : Obj} {all' : List (Path × Nat)} {roots' : List Nat} {i : Nat} {k : Path}
+    (h : path s i = some k) : path ⟨s.objs ++ [new], all', roots'⟩ i = some k := by
+  simp only [path, List.length_append, List.length_singleton] at h ⊢
+  exact pathAux_mono (pathAux_append _ h)
+
+theorem addModules_bad : ∀ (l : List Module) (s : St), (addModules l s).bad = false → s.bad = false
+  | [], _, h => h
+  | md :: rest, s, h => by
+    simp only [addModules] at h
+    split at h
+    · have := addModules_bad rest _ h; simp at this
+    · split at h
+      · have := addModules_bad rest _ h; simp at this
+      · split at h
+        · have := addModules_bad rest _ h; simp at this
+        · have := addModules_bad rest _ h
+          simp only [Bool.or_eq_false_iff] at this; exact this.1
+
+/-- the state after the first `k` modules have been created -/
+structure InitInv (proj : Project) (k : Nat) (s : St) : Prop where
+  reg : Inv s.reg
+  len : s.reg.objs.length = k
+  mods : ∀ m, m < k → ∃ o, s.reg.objs[m]? = some o ∧ path s.reg m = some (pathOf proj m) ∧ o.cls = modCls proj m ∧
+    o.aliases = [] ∧ ∀ x c, dget o.contents x = some c → x ∈ childNames proj m
+  ps : s.ps = List.replicate proj.length .unprocessed
+  alls : s.alls = List.replicate proj.length none
+  cinfo : s.cinfo = []
+
+theorem isPkgObj_eq {s : State} {p : Nat} {o : Obj} (ho : s.objs[p]? = some o) : isPkgObj s p = (o.cls == .package) := by
+  simp [isPkgObj, getObj, ho]
+
+theorem addModules_ok {proj : Project} {rank : List Nat} (wf : WFacts proj rank) :
+    ∀ (rest : List Module) (k : Nat) (s : St), k ≤ proj.length → proj.drop k = rest → InitInv proj k s →
+      (addModules rest s).bad = false → InitInv proj proj.length (addModules rest s)
+  | [], k, s, hle, hd, hI, _ => by
+    have : proj.length ≤ k := by
+      have := congrArg List.length hd; simp at this; omega
+    have hk : k = proj.length := by omega
+    simp only [addModules]; rw [← hk]; exact hI
+  | md :: rest, k, s, hle, hd, hI, hb => by
+    have hk : k < proj.length := by
+      refine Nat.lt_of_not_le (fun hge => ?_)
+      rw [List.drop_eq_nil_of_le hge] at hd; cases hd
+    have hmd : proj[k]? = some md := by
+      have := congrArg List.head? hd
+      simpa [List.head?_drop] using this
+    have hpath : pathOf proj k = md.path := by simp [pathOf, hmd]
+    have hrest : proj.drop (k+1) = rest := by
+      have := congrArg List.tail hd
+      simpa [List.tail_drop] using this
+    obtain ⟨hne, hpar⟩ := wf.parentOk k hk
+    rw [hpath] at hne hpar
+    simp only [addModules] at hb ⊢
+    have hlast : md.path.getLast? = some (md.path.getLast hne) := List.getLast?_eq_some_getLast hne
+    simp only [hlast] at hb ⊢
+    have hsplit : md.path.dropLast ++ [md.path.getLast hne] = md.path := List.dropLast_concat_getLast hne
+    generalize md.path.getLast hne = nm at hlast hsplit hb ⊢
+    have hcm : (if md.isPkg = true then Cls.package else Cls.module) = modCls proj k := by
+      simp [modCls, isPkg, hmd]
+    have hmc : isModuleCls (modCls proj k) = true := by unfold modCls; split <;> rfl
+    by_cases hl : md.path.length ≤ 1
+    · -- a root module
+      simp only [hl, if_true] at hb ⊢
+      have hdup : dhas s.reg.all md.path = false := by
+        cases hd' : dhas s.reg.all md.path with
+        | false => rfl
+        | true =>
+          exfalso
+          cases ha : addObject s.reg (if md.isPkg = true then Cls.package else Cls.module) nm none with
+          | error e => simp only [ha] at hb; have := addModules_bad _ _ hb; simp at this
+          | ok r => simp only [ha, hd'] at hb; have := addModules_bad _ _ hb; simp at this
+      have hp1 : md.path = [nm] := by
+        have : md.path.dropLast = [] := by
+          apply List.eq_nil_of_length_eq_zero; simp; omega
+        rw [this] at hsplit; exact hsplit.symm
+      have hf : dget s.reg.all [nm] = none := by
+        rw [← hp1]; unfold dhas at hdup
+        cases hx : dget s.reg.all md.path with
+        | none => rfl
+        | some v => simp [hx] at hdup
+      rw [hcm] at hb ⊢
+      have ha := addObject_fresh_root (s := s.reg) (c := modCls proj k) (name := nm) hmc hf
+      simp only [ha, hdup, Bool.or_false] at hb ⊢
+      refine addModules_ok wf rest (k+1) _ hk hrest ?_ hb
+      have hinv : Inv (⟨s.reg.objs ++ [(⟨nm, none, modCls proj k, [], []⟩ : Obj)],
+          s.reg.all ++ [([nm], s.reg.objs.length)], s.reg.roots ++ [s.reg.objs.length]⟩ : State) :=
+        addObject_inv hI.reg ha
+      refine ⟨hinv, by simp [hI.len], ?_, hI.ps, hI.alls, hI.cinfo⟩
+      intro m hm
+      by_cases hmk : m < k
+      · obtain ⟨o, ho, hp, hc, ha', hcc⟩ := hI.mods m hmk
+        refine ⟨o, ?_, path_append_old hp, hc, ha', hcc⟩
+        simp only; rw [List.getElem?_append_left (by rw [hI.len]; exact hmk)]; exact ho
+      · have : m = k := by omega
+        subst this
+        refine ⟨⟨nm, none, modCls proj m, [], []⟩, ?_, ?_, rfl, rfl, fun x c h => by simp [dget] at h⟩
+        · simp only; rw [← hI.len]; simp
+        · rw [hpath, hp1]
+          simp only [path, List.length_append, List.length_singleton]
+          rw [← hI.len]
+          exact pathAux_root (o := ⟨nm, none, modCls proj s.reg.objs.length, [], []⟩) (by simp) rfl
+    · -- a nested module: its parent is an earlier package
+      have hl2 : 2 ≤ md.path.length := by omega
+      obtain ⟨q, hq, hqk, hqp⟩ := hpar hl2
+      obtain ⟨_, hqpath⟩ := modIdx_spec hq
+      obtain ⟨qo, hqo, hqpp, hqc, _, _⟩ := hI.mods q hqk
+      have hreg : dget s.reg.all md.path.dropLast = some q := by
+        rw [← hqpath]; exact dget_of_path hI.reg hqpp
+      have hqpk : isPkgObj s.reg q = true := by
+        rw [isPkgObj_eq hqo, hqc, modCls, hqp]; rfl
+      simp only [hl, if_false, hreg, hqpk, if_true] at hb ⊢
+      have hdup : dhas s.reg.all md.path = false := by
+        cases hd' : dhas s.reg.all md.path with
+        | false => rfl
+        | true =>
+          exfalso
+          cases ha : addObject s.reg (if md.isPkg = true then Cls.package else Cls.module) nm (some q) with
+          | error e => simp only [ha] at hb; have := addModules_bad _ _ hb; simp at this
+          | ok r => simp only [ha, hd'] at hb; have := addModules_bad _ _ hb; simp at this
+      have hqpp' : path s.reg q = some md.path.dropLast := by rw [hqpp, hqpath]
+      have hf : dget s.reg.all (md.path.dropLast ++ [nm]) = none := by
+        rw [hsplit]; unfold dhas at hdup
+        cases hx : dget s.reg.all md.path with
+        | none => rfl
+        | some v => simp [hx] at hdup
+      rw [hcm] at hb ⊢
+      have ha := addObject_fresh (c := modCls proj k) hqpp' hf
+      simp only [ha, hdup, Bool.or_false] at hb ⊢
+      refine addModules_ok wf rest (k+1) _ hk hrest ?_ hb
+      have hinv : Inv (⟨objsAfterAdd s.reg (modCls proj k) nm q,
+          s.reg.all ++ [(md.path.dropLast ++ [nm], s.reg.objs.length)], s.reg.roots⟩ : State) :=
+        addObject_inv hI.reg ha
+      have hqlt : q < s.reg.objs.length := by rw [hI.len]; exact hqk
+      refine ⟨hinv, by simp [objsAfterAdd_length, hI.len], ?_, hI.ps, hI.alls, hI.cinfo⟩
+      intro m hm
+      by_cases hmk : m < k
+      · obtain ⟨o, ho, hp, hc, ha', hcc⟩ := hI.mods m hmk
+        refine ⟨_, objsAfterAdd_get_old hqlt ho, path_afterAdd_old hp, ?_, ?_, ?_⟩
+        · split <;> exact hc
+        · split <;> exact ha'
+        · intro x c hx
+          split at hx
+          · rename_i hmq; subst hmq
+            simp only at hx
+            by_cases hxn : x = nm
+            · subst hxn
+              -- the new module is a child of `m`
+              unfold childNames
+              rw [List.mem_filterMap]
+              refine ⟨md, List.mem_of_getElem? hmd, ?_⟩
+              rw [← hqpath]; simp [hlast]
+            · rw [dset_get_other _ _ _ _ hxn] at hx; exact hcc x c hx
+          · exact hcc x c hx
+      · have : m = k := by omega
+        subst this
+        refine ⟨⟨nm, some q, modCls proj m, [], []⟩, ?_, ?_, rfl, rfl, fun x c h => by simp [dget] at h⟩
+        · simp only; rw [← hI.len]; exact objsAfterAdd_get_new hqlt
+        · rw [hpath, ← hsplit, ← hI.len]; exact path_afterAdd_new hqpp'
+
+theorem getPs_replicate {s : St} {n : Nat} (h : s.ps = List.replicate n .unprocessed) (t : Nat) :
+    getPs s t = if t < n then .unprocessed else .processed := by
+  unfold getPs
+  rw [h, List.getD_eq_getElem?_getD, List.getElem?_replicate]
+  split <;> rfl
+
+theorem initSt_ok {proj : Project} {rank : List Nat} (wf : WFacts proj rank) (hb : (initSt proj).bad = false) :
+    PdInv proj (initSt proj) ∧ ∀ t, getPs (initSt proj) t ≠ .processing := by
+  unfold initSt at hb ⊢
+  have h0 : InitInv proj 0 ⟨Registry.init, List.replicate proj.length .unprocessed, List.replicate proj.length none, [], false⟩ :=
+    ⟨inv_holds_init, rfl, fun m hm => by omega, rfl, rfl, rfl⟩
+  have hI := addModules_ok wf proj 0 _ (Nat.zero_le _) (by simp) h0 hb
+  generalize addModules proj _ = s at hb hI
+  have hps := getPs_replicate hI.ps
+  have hall : ∀ t, getAll s t = none := by
+    intro t; unfold getAll; rw [hI.alls, List.getD_eq_getElem?_getD, List.getElem?_replicate]; split <;> rfl
+  refine ⟨?_, fun t => by rw [hps]; split <;> simp⟩
+  have hobj : ∀ i o, s.reg.objs[i]? = some o → i < proj.length := by
+    intro i o ho; rw [← hI.len]; exact (List.getElem?_eq_some_iff.1 ho).1
+  exact
+    { reg := hI.reg
+      lens := by rw [hI.ps, hI.alls]; simp
+      mods := fun m hm => by obtain ⟨o, ho, hp, hc, _⟩ := hI.mods m hm; exact ⟨o, ho, hp, hc⟩
+      site := by
+        intro i o ho
+        have hi := hobj i o ho
+        obtain ⟨o', ho', hp, hc, _⟩ := hI.mods i hi
+        rw [ho] at ho'; injection ho' with ho'; subst ho'
+        exact ⟨(i, []), by rw [hc]; exact ObjKind.mod hi, by simpa [sitePath] using hp⟩
+      alias := by
+        intro i o S ho _ _ x tgt hx
+        obtain ⟨o', ho', _, _, ha, _⟩ := hI.mods i (hobj i o ho)
+        rw [ho] at ho'; injection ho' with ho'; subst ho'
+        rw [ha] at hx; simp [dget] at hx
+      cont := by
+        intro m o hm ho x c hx
+        obtain ⟨o', ho', _, _, _, hc⟩ := hI.mods m hm
+        rw [ho] at ho'; injection ho' with ho'; subst ho'
+        exact Or.inl (hc x c hx)
+      alls := fun m l hl => by rw [hall] at hl; cases hl
+      started := by
+        intro i S hp hS hne
+        exfalso
+        have hi : i < proj.length := by rw [← hI.len]; exact path_lt hp
+        obtain ⟨o', _, hp', _⟩ := hI.mods i hi
+        rw [hp] at hp'; injection hp' with hp'
+        have := site_unique wf hS (⟨hi, Or.inl rfl⟩ : StaticSite proj (i, [])) (by simpa [sitePath] using hp')
+        rw [this] at hne; exact hne rfl
+      cinfo := fun c => by unfold initialBases; rw [hI.cinfo]; rfl
+      complete := by
+        intro m md hm hp
+        have hlt : m < proj.length := (List.getElem?_eq_some_iff.1 hm).1
+        rw [hps] at hp; simp [hlt] at hp }
+
+def NoProcessing (s : St) : Prop := ∀ t, getPs s t ≠ .processing
+
+theorem NoProcessing.rel {s s' : St} (h : NoProcessing s) (hr : PsRel s s') : NoProcessing s' := by
+  intro t
+  obtain ⟨_, r2, r3⟩ := hr t
+  cases hp : getPs s t with
+  | unprocessed => exact r3 hp
+  | processing => exact absurd hp (h t)
+  | processed => rw [r2 hp]; simp
+
+theorem process_bad {proj : Project} : ∀ (order : List Nat) (s : St), (process proj order s).bad = false → s.bad = false
+  | [], _, h => h
+  | m :: rest, s, h => by
+    simp only [process, List.foldl_cons] at h
+    have := process_bad rest _ h
+    split at this
+    · exact processModule_sticky proj _ _ _ this
+    · exact this
+
+theorem process_ok {proj : Project} {rank : List Nat} (wf : WFacts proj rank) :
+    ∀ (order : List Nat) (s : St), PdInv proj s → NoProcessing s → (process proj order s).bad = false →
+      PdInv proj (process proj order s) ∧ NoProcessing (process proj order s) ∧
+      (∀ m, getPs s m = .processed → getPs (process proj order s) m = .processed) ∧
+      (∀ m ∈ order, getPs (process proj order s) m = .processed)
+  | [], s, hI, hn, _ => ⟨hI, hn, fun _ h => h, fun _ h => by cases h⟩
+  | m :: rest, s, hI, hn, hb => by
+    simp only [process, List.foldl_cons] at hb ⊢
+    have hb1 := process_bad (proj := proj) rest _ hb
+    by_cases hu : getPs s m = .unprocessed
+    · simp only [hu, if_true] at hb hb1 ⊢
+      have hm : m < proj.length := by
+        refine Nat.lt_of_not_le (fun hge => ?_)
+        unfold getPs at hu
+        rw [List.getD_eq_getElem?_getD, List.getElem?_eq_none (by rw [hI.lens.1]; exact hge)] at hu
+        cases hu
+      obtain ⟨hI1, he1, hdone⟩ := (processModule_ok wf (proj.length + 1)).2 s m hb1 hI hm
+      have hn1 := hn.rel he1.ps
+      obtain ⟨hI2, hn2, hkeep, hord⟩ := process_ok wf rest _ hI1 hn1 hb
+      refine ⟨hI2, hn2, fun t ht => hkeep t ((he1.ps t).2.1 ht), ?_⟩
+      intro t ht
+      rcases List.mem_cons.1 ht with rfl | ht'
+      · exact hkeep t hdone
+      · exact hord t ht'
+    · simp only [hu, if_false] at hb hb1 ⊢
+      obtain ⟨hI2, hn2, hkeep, hord⟩ := process_ok wf rest _ hI hn hb
+      refine ⟨hI2, hn2, hkeep, ?_⟩
+      intro t ht
+      rcases List.mem_cons.1 ht with rfl | ht'
+      · refine hkeep t ?_
+        cases hp : getPs s t with
+        | processed => rfl
+        | processing => exact absurd hp (hn t)
+        | unprocessed => exact absurd hp hu
+      · exact hord t ht'
 
 end Imports
